@@ -59,6 +59,83 @@ def _init_parent():
     _G["corpus"] = [e for e in corpus.load() if not e["setup"]]
     from pyrealb import getLexicon, getRules
     _G["pristine"] = res_hashes()
+    _G["pristine_state"] = state_fingerprint()
+
+
+def state_fingerprint():
+    """Fingerprint of every piece of process-wide state of the library OTHER than the four resources, the current
+    language, the debug counters and the oneOf memory: module globals, class attributes, and — because an option
+    table or a flag can hide there — the default arguments and closure cells of every function and method.
+    Monitors the assumption A_reads (nothing else that realization could read is changed by a history)."""
+    import types
+    skip_names = {"pyrealb_oneOf_dict", "pyrealb_datecreated", "__lexicon", "_Lexicon__lexicon", "__builtins__", "__cached__",
+                  "__loader__", "__spec__", "__file__", "__doc__", "__name__", "__package__", "__path__"}
+    seen = set()
+    out = []
+
+    def val(v, depth=0):
+        if isinstance(v, (str, int, float, bool, type(None), bytes)):
+            return repr(v)
+        if depth > 6:
+            return "<deep>"
+        if isinstance(v, (list, tuple)):
+            return "[" + ",".join(val(x, depth + 1) for x in v) + "]"
+        if isinstance(v, (set, frozenset)):
+            return "{" + ",".join(sorted(val(x, depth + 1) for x in v)) + "}"
+        if isinstance(v, dict):
+            return "{" + ",".join(sorted(val(k, depth + 1) + ":" + val(x, depth + 1) for k, x in v.items())) + "}"
+        if isinstance(v, types.FunctionType):
+            return func(v)
+        if isinstance(v, (staticmethod, classmethod)):
+            return func(v.__func__)
+        if isinstance(v, types.ModuleType):
+            return "<module %s>" % v.__name__
+        if isinstance(v, type):
+            return "<class %s>" % v.__name__
+        if hasattr(v, "pattern") and hasattr(v, "flags"):
+            return "<re %r %d>" % (v.pattern, v.flags)
+        return "<%s>" % type(v).__name__
+
+    def func(f):
+        if id(f) in seen:
+            return "<fn %s>" % f.__qualname__
+        seen.add(id(f))
+        parts = ["fn", f.__qualname__, val(f.__defaults__), val(f.__kwdefaults__)]
+        if f.__closure__:
+            cells = {}
+            for name, cell in zip(f.__code__.co_freevars, f.__closure__):
+                try:
+                    cells[name] = cell.cell_contents
+                except ValueError:
+                    cells[name] = "<empty>"
+            # makeOptionMethod initialises `optionName` lazily to `option` on the first call (idempotent): normalise
+            if "optionName" in cells and cells["optionName"] is None and "option" in cells:
+                cells["optionName"] = cells["option"]
+            for name in sorted(cells):
+                parts.append(name + "=" + val(cells[name], 1))
+        return "(" + " ".join(parts) + ")"
+
+    for mname, m in sorted(sys.modules.items()):
+        if not mname.startswith("pyrealb") or m is None:
+            continue
+        for k, v in sorted(vars(m).items()):
+            if k in skip_names:
+                continue
+            if isinstance(v, type) and getattr(v, "__module__", "").startswith("pyrealb"):
+                for ck, cv in sorted(vars(v).items()):
+                    if ck in ("pengNO", "tauxNO", "debug") or (ck.startswith("__") and ck.endswith("__") and not callable(cv)):
+                        continue   # counters; CPython bookkeeping such as __slotnames__ (added by copy/pickle)
+                    out.append("%s.%s.%s=%s" % (mname, k, ck, val(cv)))
+            elif isinstance(v, types.FunctionType):
+                if getattr(v, "__module__", "").startswith("pyrealb"):
+                    out.append("%s.%s=%s" % (mname, k, func(v)))
+            elif isinstance(v, types.ModuleType):
+                continue
+            else:
+                if type(v).__name__ == "Lexicon":
+                    continue
+                out.append("%s.%s=%s" % (mname, k, val(v)))
+    return hashlib.md5("\n".join(out).encode("utf-8", "replace")).hexdigest(), out
 
 
 def res_hashes():
@@ -67,6 +144,7 @@ def res_hashes():
     for name, obj in (("lexEn", getLexicon("en")), ("lexFr", getLexicon("fr")), ("rulesEn", getRules("en")),
                       ("rulesFr", getRules("fr"))):
         out[name] = hashlib.md5(pickle.dumps(obj, protocol=4)).hexdigest()
+    out["otherState"] = state_fingerprint()[0]
     return out
 
 
@@ -83,6 +161,10 @@ PROBE_EXTRA = [
     ("fr", 'root(V("aimer"),subj(N("homme"),det(D("le"))),comp(N("arbre").n("p"),det(D("un")))).typ({"pas":True})'),
     ("fr", 'NP(D("le"),A("beau"),N("hôtel"))'),
     ("en", 'N("xyzzyq")'),
+    ("en", 'NP(D("my").pe(1).ow("p"),N("house"))'),
+    ("en", 'S(Pro("I").pe(\'2\'),VP(V("sing")))'),
+    ("fr", 'S(Pro("je").pe(\'2\'),VP(V("chanter")))'),
+    ("fr", 'NP(D("mon").pe(2).n("p"),N("maison"))'),
     ("fr", 'V("apparaître").t("pc").pe(3).n("p")'),
 ]
 
@@ -189,7 +271,13 @@ def child_history(hist):
     for op in hist:
         exec_op(op)
         langs.append(pyrealb.getLanguage())
-    return {"langs": langs, "probes": run_probes(), "hashes": res_hashes()}
+    h = res_hashes()
+    fp = state_fingerprint()
+    changed = None
+    if "pristine_state" in _G and fp[0] != _G["pristine_state"][0]:
+        a, b = set(_G["pristine_state"][1]), set(fp[1])
+        changed = sorted(x.split("=")[0] for x in (a ^ b))[:6]
+    return {"langs": langs, "probes": run_probes(), "hashes": h, "state_changed": changed}
 
 
 def _task(arg):
@@ -213,7 +301,8 @@ def model_ops(op):
     return [MODEL_NAME[op[0]]]
 
 
-WARNERS = ['N("qwxz")', 'V("love").t("zz")', 'NP(D("the"),N("cat")).n("x")', 'S(VP(V("glorp")))', 'A("grand").f("zz")',
+WARNERS = ['CP(C("or"),D("my").pe(1),D("my").pe(2)).ow("p")', 'Pro("je").pe()', 'N("cat").n()', 'V("go").t()', 'CP(C("et"),A("grand"),A("fort")).f("co")',
+           'N("qwxz")', 'V("love").t("zz")', 'NP(D("the"),N("cat")).n("x")', 'S(VP(V("glorp")))', 'A("grand").f("zz")',
            'NO("abc")', 'DT("not a date")', 'N("chat").g("q")', 'Pro("zzz")', 'S(3)', 'NP(None, N("cat")).typ({"zzz":1})',
            'root()', 'VP()', 'S(NP(), VP(V("go")))', 'N(None)', 'V("aller").t("pc").aux("zz")']
 
@@ -318,7 +407,7 @@ def differs(hist, fresh_of):
             return {"what": "probe", "probe": ps[i], "after_history": a, "fresh": b}
     for k in res["hashes"]:
         if res["hashes"][k] != fr["hashes"][k]:
-            return {"what": "resource", "resource": k}
+            return {"what": "resource", "resource": k, "state_changed": res.get("state_changed")}
     return None
 
 
@@ -403,7 +492,7 @@ def run(ctx, deep=False):
         if bad is None:
             for k in res["hashes"]:
                 if res["hashes"][k] != fr["hashes"][k]:
-                    bad = {"what": "resource", "resource": k}
+                    bad = {"what": "resource", "resource": k, "state_changed": res.get("state_changed")}
                     break
         if bad is not None and len(ctx.failures) < 6:
             small = shrink(h, {}, bad["what"])
@@ -411,7 +500,8 @@ def run(ctx, deep=False):
             if d["what"] == "probe":
                 sig = "history-dependence:%s|probe:%s" % (",".join(opsig(o) for o in small), d["probe"][1].split("(")[0])
             else:
-                sig = "resource-mutated:%s|%s" % (d["resource"], ",".join(opsig(o) for o in small))
+                sig = "resource-mutated:%s%s|%s" % (d["resource"], (":" + ",".join(d["state_changed"])) if d.get("state_changed") else "",
+                                                    ",".join(opsig(o) for o in small))
             ctx.fail(sig, {"history": small, "probe_lang_src": d.get("probe")}, d)
         elif bad is not None:
             ctx.fail("unshrunk:" + bad["what"], {"history": h}, bad)
